@@ -490,6 +490,14 @@ def subclass_values(rng, n):
             v = {'kkkkkkkkkkkkkkkkkkkkkkkkkkkkkkkkkkkkkkkkkkkkkkkkkk': v, 'b': [v]}
         elif r < 0.65:
             v = S.CallObj(S.Ctor, (v,), [('kw', v)])
+        elif r < 0.85 and base in (str, bytes, int, float, tuple, frozenset):
+            # hashable instances in key / element position (a container's fast path must not lose the class)
+            try:
+                hash(v)
+                k = rng.randrange(6)
+                v = [{v: 1}, {v: [v], 'z': 2}, {v}, frozenset([v]), [(1, v)], {(v,): v}][k]
+            except TypeError:
+                pass
         out.append(v)
     out.append(S.Color.RED)
     out.append([S.Color.BIG])
@@ -504,7 +512,7 @@ def subclasses_section(tier, seed):
     stats = {'evaluations': tot, 'distinct_nontrivial': nt, 'values': len(vals), 'mismatches': len(mism),
              'samples': [{'value': val_to_sx(vals[0])[:300]}, {'value': val_to_sx(vals[7])[:300]}],
              'rule': 'instances of 36 generated subclasses (9 bases x {plain, __repr__, __str__, both overridden}) + IntEnum, '
-                     'alone and nested (list, dict value, long dict key line, 1-tuple, call argument) x widths x ribbons x indents; '
+                     'alone and nested (list, dict value, dict key, set / frozenset element, tuple inside a key, long dict key line, 1-tuple, call argument) x widths x ribbons x indents; '
                      'oracle: eval with the defining module in scope gives the same class and equal base value'}
     return stats, mism, fails
 
@@ -831,4 +839,157 @@ def depth_section(tier, seed):
     stats = {'evaluations': tot, 'distinct_nontrivial': nt, 'values': len(vals), 'mismatches': len(mism),
              'samples': [{'value': repr(vals[0])[:200], 'depth': '0 .. height+2, None'}],
              'rule': 'container trees with unique leaves x depth in {0 .. height+2, None} x 2 widths; oracle: exactly the leaves nested in fewer than depth containers appear, depth > height == depth None'}
+    return stats, mism, fails
+
+
+# ---------------------------------------------------------------------------------------------
+# code tokens (C03): the spec `ctoks` / `canonW` of PP/Spec/Tokens.lean, PP/Proofs/ToksVal.lean against CPython's tokenizer
+
+def py_tokens(text):
+    """code tokens of a printed text according to CPython: [('c', str) | ('l', code points)], comments / newlines dropped,
+    a bytes literal as its b prefix followed by the literal"""
+    import io
+    import tokenize
+    out = []
+    for tok in tokenize.generate_tokens(io.StringIO('(\n' + text + '\n)').readline):
+        if tok.type in (tokenize.COMMENT, tokenize.NL, tokenize.NEWLINE, tokenize.INDENT, tokenize.DEDENT, tokenize.ENDMARKER):
+            continue
+        if tok.type == tokenize.STRING:
+            v = ast.literal_eval(tok.string)
+            if isinstance(v, bytes):
+                out.append(('c', 'b'))
+                out.append(('l', tuple(v)))
+            else:
+                out.append(('l', tuple(map(ord, v))))
+        else:
+            out.append(('c', tok.string))
+    return out[1:-1]
+
+
+def sx_tokens(sx):
+    """tokens as the driver prints them: (c cp..) (l cp..) lbad"""
+    out = []
+    for t in sx[1:]:
+        if t == 'lbad':
+            out.append(('bad', ()))
+        elif t[0] == 'c':
+            out.append(('c', ''.join(chr(int(x)) for x in t[1:])))
+        else:
+            out.append(('l', tuple(int(x) for x in t[1:])))
+    return out
+
+
+def teq_normal(toks):
+    """normal form under TEq (Spec/Tokens.lean): parentheses around a run of >= 2 literals dropped, adjacent literals merged
+    (bytes: b-prefixed literals), then adjacent code fragments concatenated (the two tokenizers cut code text differently)"""
+    toks = list(toks)
+    # 1. parentheses around a run of literals (with optional b prefixes)
+    out, i = [], 0
+    while i < len(toks):
+        if toks[i] == ('c', '('):
+            j, nl = i + 1, 0
+            while j < len(toks) and (toks[j][0] == 'l' or toks[j] == ('c', 'b')):
+                nl += toks[j][0] == 'l'
+                j += 1
+            if nl >= 2 and j < len(toks) and toks[j] == ('c', ')'):
+                out.extend(toks[i + 1:j])
+                i = j + 1
+                continue
+        out.append(toks[i])
+        i += 1
+    # 2. adjacent literals
+    toks, out = out, []
+    for t in toks:
+        if t[0] == 'l' and out and out[-1][0] == 'l':
+            out[-1] = ('l', out[-1][1] + t[1])
+        elif t[0] == 'l' and len(out) >= 3 and out[-1] == ('c', 'b') and out[-2][0] == 'l' and out[-3] == ('c', 'b'):
+            out.pop()
+            out[-1] = ('l', out[-1][1] + t[1])
+        else:
+            out.append(t)
+    # 3. code fragments
+    toks, out = out, []
+    for t in toks:
+        if t[0] == 'c' and out and out[-1][0] == 'c':
+            out[-1] = ('c', out[-1][1] + t[1])
+        else:
+            out.append(t)
+    return out
+
+
+def token_chunk(args):
+    cases = args
+    drv = _driver()
+    from common import parse_sx as sx_parse
+    mism, fails = [], []
+    n = nt = skipped = 0
+    for (value, sets) in cases:
+        sx = val_to_sx(value)
+        g = drv.ask('(ctoks %s %s)' % (sx, ' '.join(settings_sx(*st) for st in sets)))
+        try:
+            res = sx_parse(g)
+        except Exception:
+            res = None
+        if not res or res[0] != 'ok':
+            mism.append({'value': repr(value)[:300], 'value_sx': sx[:1500], 'model': g[:300], 'impl': 'ctoks request'})
+            continue
+        norms = set()
+        for st, r in zip(sets, res[1:]):
+            indent, width, ribbon, depth, msl, sort = st
+            n += 1
+            try:
+                with warnings.catch_warnings():
+                    warnings.simplefilter('ignore')
+                    text = pp.pformat(value, indent=indent, width=width, depth=depth, ribbon_width=ribbon, max_seq_len=msl, sort_dict_keys=sort)
+                py = py_tokens(text)
+            except Exception as e:
+                skipped += 1
+                continue        # unparsable output is the business of the eval oracle, not of this section
+            m_toks, m_canon = sx_tokens(r[0]), sx_tokens(r[1])
+            a, b, c = teq_normal(py), teq_normal(m_toks), teq_normal(m_canon)
+            norms.add(repr(py))
+            if a != b:
+                mism.append({'kind': 'ctoks(model stream) differs from CPython tokenize of the implementation text', 'value': repr(value)[:300],
+                             'value_sx': sx[:1500], 'settings': st, 'impl': repr(a)[:800], 'model': repr(b)[:800]})
+                break
+            if a != c and len(fails) < 3:
+                fails.append({'kind': 'tokens-not-canonical', 'value': repr(value)[:300], 'settings': st, 'text': text[:600],
+                              'tokens': repr(a)[:600], 'canonical': repr(c)[:600]})
+                break
+        if len(norms) > 1:
+            nt += 1
+    return n, nt, mism, fails, skipped
+
+
+def tokens_section(tier, seed):
+    rng = random.Random(seed * 31 + 17)
+    cases = []
+    n_rand = 700 if tier == 'quick' else 8000
+    for _ in range(n_rand):
+        v = V.rand_value(rng, budget=rng.choice([5, 10, 20, 40]))
+        if rng.random() < 0.4:
+            v = add_comments(rng, v, rng.choice([0.15, 0.4]))
+        sorts = (0, 1) if sortable(V.strip_comments(v)) and rng.random() < 0.3 else (0,)
+        sets = settings_for(rng, v, 'quick', sorts)
+        if rng.random() < 0.3:      # depth / max_seq_len limits: canonW depends on them, not on the layout
+            d, m = rng.choice([None, 1, 2, 3]), rng.choice([1000, 1, 2, 3])
+            sets = [(i, w, r, d, m, s) for (i, w, r, _, _, s) in sets]
+        cases.append((v, sets))
+    chunks = [cases[i:i + 25] for i in range(0, len(cases), 25)]
+    tot = nt = skipped = 0
+    mism, fails = [], []
+    with mp.Pool(min(NCPU, len(chunks))) as pool:
+        for n, t, mm, ff, sk in pool.imap_unordered(token_chunk, chunks):
+            tot += n
+            nt += t
+            skipped += sk
+            mism.extend(mm)
+            fails.extend(ff)
+    stats = {'evaluations': tot, 'distinct_nontrivial': nt, 'random_values': n_rand, 'mismatches': len(mism),
+             'skipped_output_not_tokenizable': skipped,
+             'samples': [{'value': val_to_sx(cases[0][0])[:300]}],
+             'rule': 'random built-in value trees (40% with comments, 30% with depth / max_seq_len limits) x 10 widths x ribbons x indents: '
+                     'CPython tokenize of the implementation text, the spec tokenizer ctoks on the model stream and the canonical tokens canonW '
+                     'agree up to the TEq normal form (split literals merged, parentheses around split literals dropped); '
+                     'non-trivial = values whose raw token sequence differs between layouts'}
     return stats, mism, fails
